@@ -15,12 +15,13 @@
        and leave a detached record in creatingTreasures when they return without Save;
      - Delete / ShiftByKeys / Uint32SliceDelete destroy a swamp they emptied and keep using the dead
        swamp object for the rest of the request.
-   Five behaviours of the pinned commit are switchable ([cfg]), so that the old behaviour stays
+   Six behaviours of the pinned commit are switchable ([cfg]), so that the old behaviour stays
    machine-checked as the reason for the repairs: change flags never reset ([c_sticky]),
    Uint32SliceDelete calling DeleteTreasure with the record guard still held ([c_hold] => Hang),
    Get indexing Keys[0] of an empty non-nil list ([c_getpanic] => Panic, recovered to (nil,nil)),
    Set answering a second bare entry after an error entry ([c_dupset]), Uint32SlicePush/Delete
-   answering (nil, nil) on success ([c_pushnil]). [cfg_now] is the repaired code.
+   answering (nil, nil) on success ([c_pushnil]), the writing handlers accepting the empty key, which the
+   storage reader refuses ([c_keycheck] = false). [cfg_now] is the repaired code.
 
    Abstractions (M3/M4): keys, swamp names, strings, byte strings are Z tokens (0 = the empty
    string); integer payloads are their numeric value with Go's conversions written out ([wrap]);
@@ -237,9 +238,9 @@ Definition empty_swamp : swamp := {| recs := []; infl := [] |}.
 Definition srv := list (Z * swamp).
 Definition srv0 : srv := [].
 
-Record cfg := { c_sticky : bool; c_hold : bool; c_getpanic : bool; c_dupset : bool; c_pushnil : bool }.
-Definition cfg_now : cfg := {| c_sticky := false; c_hold := false; c_getpanic := false; c_dupset := false; c_pushnil := false |}.
-Definition cfg_pinned : cfg := {| c_sticky := true; c_hold := true; c_getpanic := true; c_dupset := true; c_pushnil := true |}.
+Record cfg := { c_sticky : bool; c_hold : bool; c_getpanic : bool; c_dupset : bool; c_pushnil : bool; c_keycheck : bool }.
+Definition cfg_now : cfg := {| c_sticky := false; c_hold := false; c_getpanic := false; c_dupset := false; c_pushnil := false; c_keycheck := true |}.
+Definition cfg_pinned : cfg := {| c_sticky := true; c_hold := true; c_getpanic := true; c_dupset := true; c_pushnil := true; c_keycheck := false |}.
 
 Definition exists_sw (s : srv) (sw : Z) : bool := ahas sw s.
 (* SummonSwamp: the open swamp, or a new empty one *)
@@ -330,7 +331,8 @@ Definition do_set (c : cfg) (s : srv) (sw : Z) (create over : bool) (kvs : optio
       match kvs with
       | None => (s, RErr EInvalid)
       | Some its =>
-          if negb create && negb over then (s, set_err c ec_cannot)
+          if c_keycheck c && existsb (fun it => Z.eqb (kv_key it) 0) its then (s, RErr EInvalid)
+          else if negb create && negb over then (s, set_err c ec_cannot)
           else if negb create && negb (exists_sw s sw) then (s, set_err c ec_noswamp)
           else
             let '(x, os) := set_items c create over (summon s sw) its in
@@ -522,13 +524,16 @@ Definition api_step (c : cfg) (s : srv) (q : request) : srv * response :=
   | QInc t sw k by_ cond ne e =>
       if Z.eqb sw 0 then (s, RErr EInvalid)
       else if Z.eqb by_ 0 || negb (numeric t) then (s, RErr EInvalid)
+      else if c_keycheck c && Z.eqb k 0 then (s, RErr EInvalid)
       else
         let '(x, r) := do_inc_swamp c (summon s sw) t k by_ cond ne e in
         (commit s sw x true, r)
   | QPush sw pairs =>
       match check_name s sw false with
       | Some e => (s, RErr e)
-      | None => (commit s sw (push_pairs c (summon s sw) pairs) true, if c_pushnil c then RNil else ROk)
+      | None =>
+          if c_keycheck c && existsb (fun p => Z.eqb (fst p) 0) pairs then (s, RErr EInvalid)
+          else (commit s sw (push_pairs c (summon s sw) pairs) true, if c_pushnil c then RNil else ROk)
       end
   | QSlDel sw pairs =>
       match check_name s sw false with
